@@ -500,9 +500,11 @@ impl<'a> Printer<'a> {
             }
             Trivia::Dense => {
                 let opts: &[&str] = if must {
-                    &[" ", "\n", " /* c */ ", " // c\n", "\t", "  ", " /* a /* nested */ b */ ", "\r\n", " /** doc **/ ", " /**/ ", " /***/ ", " //\n", " /* * / // */ ", " /*\n multi\n line */ "]
+                    &[" ", "\n", " /* c */ ", " // c\n", "\t", "  ", " /* a /* nested */ b */ ", "\r\n", " /** doc **/ ", " /**/ ", " /***/ ", " //\n", " /* * / // */ ", " /*\n multi\n line */ ",
+                      // the rarer members of the lexer's whitespace set
+                      "\u{000B}", "\u{000C}", "\u{0085}", "\u{2028}", "\u{2029}", " \u{200E}", "\u{200F} "]
                 } else {
-                    &["", "", " ", "\n", " /* c */ ", "/*c*/", " // c\n", "\t", "\r\n", "/** doc **/", "/**/", "/***/", "/*****/", " // /* x\n", "/* \" ' */"]
+                    &["", "", " ", "\n", " /* c */ ", "/*c*/", " // c\n", "\t", "\r\n", "/** doc **/", "/**/", "/***/", "/*****/", " // /* x\n", "/* \" ' */", "\u{000B}", "\u{000C}", "\u{0085}", "\u{2028}"]
                 };
                 (*self.r.pick(opts)).to_string()
             }
